@@ -2052,7 +2052,9 @@ hdf_cdf_clobber(NC *handle)
         if (tag == DFTAG_VG) {
             /* check if vgroup exists in file */
             if (vexistvg(handle->hdf_file, ref) != FAIL) {
-                hdf_vg_clobber(handle, ref);
+                if (FAIL == hdf_vg_clobber(handle, ref)) {
+                    HGOTO_FAIL(FAIL);
+                }
             }
         }
 
